@@ -220,3 +220,60 @@ Definition udp_upstream_dials (addr dial_addr : list N) : option udp_dials :=
     end
   | None => None
   end.
+
+(** * Time
+
+    udpWithFallback passes the caller's [ctx] unchanged to both transports and
+    has no timeout of its own: the only limits are the caller's deadline and,
+    for the TCP exchange, the connection deadline [reuseConnQueryTimeout].
+    Times in ms from the start of the call: the UDP outcome is known at
+    [t_udp]; the TCP exchange, started then, takes [t_tcp]. *)
+Definition tcp_query_timeout_ms : N := Z.to_N (reuse_conn_query_timeout / 1000000)%Z.
+
+Definition with_deadline (deadline t : N) (o : outcome) : outcome :=
+  if t <? deadline then o else Err e_timeout.
+
+Definition udp_with_fallback_timed (q : bytes) (deadline t_udp : N) (udp : outcome)
+                                   (t_tcp : N) (tcp : bytes -> outcome) : result * list bytes :=
+  udp_with_fallback q (with_deadline deadline t_udp udp)
+    (fun q' => if tcp_query_timeout_ms <=? t_tcp then Err e_closed
+               else with_deadline deadline (t_udp + t_tcp) (tcp q')).
+
+(** * TCP retries whose caller gives up (ReuseConnTransport, reusableConn.exchange)
+
+    A connection carries one query at a time and replies are matched to
+    queries by connection only.  Per connection: the replies the server still
+    owes on it, oldest first.  A connection whose caller gave up (ctx.Done) is
+    NOT handed back: it stays out of the idle pool until readLoop has read the
+    owed reply (dropped into the abandoned channel), then it is idle again.  An
+    exchange on an idle connection gets the first frame that arrives on it; a
+    further frame with nobody waiting closes the connection. *)
+Inductive rev :=
+| EvExchange (q : bytes) (gives_up : bool)   (* a retry; its caller gives up before the reply, or waits *)
+| EvLate.                                    (* the replies owed on abandoned connections arrive *)
+
+Record rpool := mkPool { r_idle : list (list bytes); r_out : list (list bytes) }.
+
+Definition rpool0 : rpool := mkPool [] [].
+
+Definition rstep (f : bytes -> bytes) (s : rpool) (e : rev) : rpool * option bytes :=
+  match e with
+  | EvExchange q gu =>
+    let '(owed, rest) := match r_idle s with [] => ([], []) | o :: t => (o, t) end in
+    let stream := owed ++ [f q] in
+    if gu then (mkPool rest (stream :: r_out s), None)
+    else match stream with
+         | [] => (mkPool rest (r_out s), None)
+         | r :: [] => (mkPool ([] :: rest) (r_out s), Some r)
+         | r :: _ => (mkPool rest (r_out s), Some r)   (* the next frame is unexpected: closed *)
+         end
+  | EvLate =>
+    (mkPool (r_idle s ++ map (fun _ => []) (filter (fun st => (length st =? 1)%nat) (r_out s))) [], None)
+  end.
+
+(** replies handed to the callers, one entry per event *)
+Fixpoint rrun (f : bytes -> bytes) (s : rpool) (es : list rev) : list (option bytes) :=
+  match es with
+  | [] => []
+  | e :: t => let '(s', r) := rstep f s e in r :: rrun f s' t
+  end.
